@@ -16,6 +16,7 @@ extern crate alloc;
 use generic_array::functional::*;
 use generic_array::sequence::*;
 use generic_array::typenum::*;
+use generic_array::typenum::operator_aliases::*;
 use generic_array::{arr, ArrayLength, GenericArray, GenericArrayIter, IntoArrayLength, LengthError};
 use core::borrow::{Borrow, BorrowMut};
 use core::convert::TryFrom;
@@ -313,6 +314,9 @@ def build(tier, seed):
     rng = random.Random(seed * 104729 + 5)
     rounds = 2 if tier == "quick" else 10
     P = fam_lengths(rng, rounds) + fam_auto(rng, 2 if tier == "quick" else 4) + fam_lifetimes()
+    # length-generic callers stating only the documented bounds (accept only)
+    from c12_generic import CANDS
+    P += [Prog("length", name, {}, "accept", body) for name, body in CANDS.items()]
     seen = set()
     out = []
     for p in P:
@@ -396,7 +400,7 @@ def run(root, pid, tier, seed, only=None, rule=None):
     return E.evidence(
         pid, tier, seed, "exploration", len(progs), len(rejects),
         rule or "programs generated in accept/reject twins that differ in exactly one length, type name or lifetime, compiled (rustc --emit=metadata) against the rlib built from the working tree. "
-        "Families: (1) length relations - zip in all ten receiver forms (and its doc-hidden entry points inverted_zip / inverted_zip2), ==, <, cmp, partial_cmp, split (owned/&/&mut; wrong second length; pivot past the end), pop_back/pop_front/remove/swap_remove (result length; from an empty array), append/prepend, concat, flatten/unflatten (owned/&/&mut), into_array/from_array/From/Into/AsRef/AsMut/From<&[T;N]>/From<&mut [T;N]>, from_chunks/into_chunks (+_mut), tuples of every arity incl. 13, arr! length inference (list and both repeat forms), user impl of ArrayLength (sealed), stack x boxed zip; "
+        "Families: (1) length relations - zip in all ten receiver forms (and its doc-hidden entry points inverted_zip / inverted_zip2), ==, <, cmp, partial_cmp, split (owned/&/&mut; wrong second length; pivot past the end), pop_back/pop_front/remove/swap_remove (result length; from an empty array), append/prepend, concat, flatten/unflatten (owned/&/&mut), into_array/from_array/From/Into/AsRef/AsMut/From<&[T;N]>/From<&mut [T;N]>, from_chunks/into_chunks (+_mut), tuples of every arity incl. 13, arr! length inference (list and both repeat forms), user impl of ArrayLength (sealed), stack x boxed zip; 37 length-generic callers that state only the documented bounds of an operation (accept only: a tightened bound must not break them); "
         "(2) auto traits - Send, Sync, Copy, Clone for GenericArray, GenericArrayIter and Box<GenericArray> over ten element types (u8, String, Rc, Cell, RefCell, *const u8, MutexGuard, Arc<Cell>, &Cell, AtomicU8), expected verdict = whether the element type has the trait (iterator and Box never Copy); "
         "(3) lifetimes - for 41 reference-returning APIs: widening ('a in, 'static out), escape (view of a local outlives it), and for mutable views two live mutable views / shared use while a mutable view is live, for shared views mutation of the source while the view is live; arr! of references; collect/map of references. "
         "Oracle: a predicate over the generated parameters says accept or reject; any type-, trait- or borrow-check error counts as a rejection; unresolved names / syntax errors are template faults (exit 2). "
